@@ -5,6 +5,7 @@ import (
 	"hash/crc32"
 	"math"
 	"strings"
+	"unicode"
 
 	"golang.org/x/tools/go/ssa"
 )
@@ -480,6 +481,54 @@ func init() {
 	}
 	reg("strings.ToUpper", caseMap(true))
 	reg("strings.ToLower", caseMap(false))
+
+	// ---- unicode predicates on symbolic ASCII runes: table formulas instead of switch forks -----
+	uniPred := func(f func(rune) bool) Intrinsic {
+		return func(ex *Exec, g *G, fn *ssa.Function, a []Value) (Value, bool) {
+			r := a[0].(*Term)
+			if r.IsConst() {
+				return ex.ts.Bool(f(rune(r.SInt()))), true
+			}
+			hi := ex.ts.BvCmp(OBvULe, ex.ts.BVConst(32, 0x80), r)
+			if ex.check(hi) != Unsat {
+				return nil, false // may be non-ASCII: run the real code
+			}
+			elems := make([]Value, 128)
+			for i := range elems {
+				elems[i] = ex.ts.Bool(f(rune(i)))
+			}
+			return ex.iteChain(r, elems), true
+		}
+	}
+	reg("unicode.IsSpace", uniPred(unicode.IsSpace))
+	reg("unicode.IsLetter", uniPred(unicode.IsLetter))
+	reg("unicode.IsNumber", uniPred(unicode.IsNumber))
+	reg("unicode.IsDigit", uniPred(unicode.IsDigit))
+	reg("unicode.IsUpper", uniPred(unicode.IsUpper))
+	reg("unicode.IsLower", uniPred(unicode.IsLower))
+	reg("unicode.IsPunct", uniPred(unicode.IsPunct))
+	uniMap := func(f func(rune) rune) Intrinsic {
+		return func(ex *Exec, g *G, fn *ssa.Function, a []Value) (Value, bool) {
+			r := a[0].(*Term)
+			if r.IsConst() {
+				return ex.ts.BVConst(32, uint64(f(rune(r.SInt())))), true
+			}
+			hi := ex.ts.BvCmp(OBvULe, ex.ts.BVConst(32, 0x80), r)
+			if ex.check(hi) != Unsat {
+				return nil, false
+			}
+			// identity except for the mapped letters
+			out := r
+			for i := 127; i >= 0; i-- {
+				if m := f(rune(i)); m != rune(i) {
+					out = ex.ts.Ite(ex.ts.Eq(r, ex.ts.BVConst(32, uint64(i))), ex.ts.BVConst(32, uint64(m)), out)
+				}
+			}
+			return out, true
+		}
+	}
+	reg("unicode.ToLower", uniMap(unicode.ToLower))
+	reg("unicode.ToUpper", uniMap(unicode.ToUpper))
 
 	// ---- crc32 as an uninterpreted function per length ----------------------------------------
 	reg("hash/crc32.ChecksumIEEE", func(ex *Exec, g *G, fn *ssa.Function, a []Value) (Value, bool) {
